@@ -89,3 +89,147 @@ pub proof fn lemma_bulk_extend(d: Seq<u8>, e: Seq<u8>)
     }
 }
 }
+verus! {
+// ---- full frame grammar (RESP2 + the RESP3 types the parser accepts)
+pub enum FV {
+    Simple(Seq<u8>), Error(Seq<u8>), Int(i64), Bulk(Option<Seq<u8>>), Arr(Option<Seq<FV>>), Null, Bool(bool), Double(f64),
+    Map(Seq<(FV, FV)>), Set(Seq<FV>),
+}
+pub enum PR { Incomplete, Bad, Done(FV, int) }
+pub enum ER { Incomplete, Bad, Done(Seq<FV>, int) }
+pub uninterp spec fn spec_parse_f64(b: Seq<u8>) -> Option<f64>;
+pub open spec fn spec_parse_usize(b: Seq<u8>) -> Option<usize> { if utf8_ok(b) { parse_spec::<usize>(b) } else { None } }
+
+/// k frames starting at byte `pos` of d, appended to `acc`; Done(all frames, end position)
+pub open spec fn spec_elems(d: Seq<u8>, pos: int, k: int, acc: Seq<FV>) -> ER
+    decreases d.len() - pos, 2int, k
+{
+    if k <= 0 { ER::Done(acc, pos) }
+    else if pos < 0 || pos > d.len() { ER::Bad }
+    else {
+        match spec_frame(d.subrange(pos, d.len() as int)) {
+            PR::Incomplete => ER::Incomplete,
+            PR::Bad => ER::Bad,
+            PR::Done(f, n) => if n <= 0 || pos + n > d.len() { ER::Bad } else { spec_elems(d, pos + n, k - 1, acc.push(f)) },
+        }
+    }
+}
+pub open spec fn spec_frame(d: Seq<u8>) -> PR
+    decreases d.len(), 1int, 0int
+{
+    if d.len() == 0 { PR::Incomplete }
+    else if d[0] == 43u8 { match spec_line(d, 1) { None => PR::Incomplete, Some((l, n)) => PR::Done(FV::Simple(l), n) } }
+    else if d[0] == 45u8 { match spec_line(d, 1) { None => PR::Incomplete, Some((l, n)) => PR::Done(FV::Error(l), n) } }
+    else if d[0] == 58u8 { match spec_line(d, 1) { None => PR::Incomplete, Some((l, n)) => match spec_parse_i64(l) { Some(v) => PR::Done(FV::Int(v), n), None => PR::Bad } } }
+    else if d[0] == 36u8 { match spec_bulk(d) { BulkSpec::Incomplete => PR::Incomplete, BulkSpec::Bad => PR::Bad, BulkSpec::Null(n) => PR::Done(FV::Bulk(None), n), BulkSpec::Data(p, n) => PR::Done(FV::Bulk(Some(p)), n) } }
+    else if d[0] == 42u8 {
+        match spec_line(d, 1) { None => PR::Incomplete, Some((l, h)) => match spec_parse_i64(l) {
+            None => PR::Bad,
+            Some(n) => if n == -1 { PR::Done(FV::Arr(None), h) } else if n < 0 { PR::Bad } else if h <= 0 || h > d.len() { PR::Bad } else {
+                match spec_elems(d, h, n as int, Seq::<FV>::empty()) { ER::Incomplete => PR::Incomplete, ER::Bad => PR::Bad, ER::Done(fs, e) => PR::Done(FV::Arr(Some(fs)), e) } },
+        } }
+    }
+    else if d[0] == 95u8 { if d.len() < 3 { PR::Incomplete } else if is_crlf_at(d, 1) { PR::Done(FV::Null, 3) } else { PR::Bad } }
+    else if d[0] == 35u8 { if d.len() < 4 { PR::Incomplete } else if is_crlf_at(d, 2) && d[1] == 116u8 { PR::Done(FV::Bool(true), 4) } else if is_crlf_at(d, 2) && d[1] == 102u8 { PR::Done(FV::Bool(false), 4) } else { PR::Bad } }
+    else if d[0] == 44u8 { match spec_line(d, 1) { None => PR::Incomplete, Some((l, n)) => match spec_parse_f64(l) { Some(v) => PR::Done(FV::Double(v), n), None => PR::Bad } } }
+    else if d[0] == 126u8 {
+        match spec_line(d, 1) { None => PR::Incomplete, Some((l, h)) => match spec_parse_usize(l) {
+            None => PR::Bad,
+            Some(n) => if h <= 0 || h > d.len() { PR::Bad } else { match spec_elems(d, h, n as int, Seq::<FV>::empty()) { ER::Incomplete => PR::Incomplete, ER::Bad => PR::Bad, ER::Done(fs, e) => PR::Done(FV::Set(fs), e) } },
+        } }
+    }
+    else if d[0] == 37u8 {
+        match spec_line(d, 1) { None => PR::Incomplete, Some((l, h)) => match spec_parse_usize(l) {
+            None => PR::Bad,
+            Some(n) => if h <= 0 || h > d.len() { PR::Bad } else { match spec_elems(d, h, 2 * (n as int), Seq::<FV>::empty()) { ER::Incomplete => PR::Incomplete, ER::Bad => PR::Bad, ER::Done(fs, e) => PR::Done(FV::Map(pairs_of(fs)), e) } },
+        } }
+    }
+    else { PR::Bad }
+}
+pub open spec fn pairs_of(fs: Seq<FV>) -> Seq<(FV, FV)> { Seq::new(fs.len() / 2, |i: int| (fs[2 * i], fs[2 * i + 1])) }
+}
+verus! {
+// ---- CHUNKING (C20): the grammar oracle is stable under extension of the input — a complete frame or a protocol error
+// never changes when more bytes arrive; only "need more data" may turn into something else. Since the parser computes
+// exactly this oracle (units of c20_parser), its answer for a byte stream does not depend on how the stream was cut.
+pub proof fn lemma_line_bounds(d: Seq<u8>, skip: int)
+    requires 0 <= skip,
+    ensures spec_line(d, skip) matches Some((l, n)) ==> skip + 2 <= n <= d.len() && l == d.subrange(skip, n - 2),
+{
+    lemma_first_crlf_props(d, skip);
+}
+
+pub proof fn lemma_frame_extend(d: Seq<u8>, e: Seq<u8>)
+    ensures
+        spec_frame(d) matches PR::Done(f, n) ==> spec_frame(d + e) == spec_frame(d) && 0 < n <= d.len(),
+        spec_frame(d) is Bad ==> spec_frame(d + e) is Bad,
+    decreases d.len(), 1int, 0int
+{
+    if d.len() == 0 { return; }
+    let x = d + e;
+    assert(x[0] == d[0]);
+    let t = d[0];
+    if t == 43u8 || t == 45u8 || t == 58u8 || t == 44u8 {
+        lemma_line_bounds(d, 1);
+        if spec_line(d, 1) is Some { lemma_line_extend(d, e, 1); }
+    } else if t == 36u8 {
+        lemma_bulk_extend(d, e);
+        lemma_line_bounds(d, 1);
+        lemma_first_crlf_props(d, 1);
+    } else if t == 42u8 || t == 126u8 || t == 37u8 {
+        lemma_line_bounds(d, 1);
+        if spec_line(d, 1) is Some {
+            lemma_line_extend(d, e, 1);
+            let (l, h) = spec_line(d, 1)->Some_0;
+            if t == 42u8 {
+                if let Some(n) = spec_parse_i64(l) { if n >= 0 { lemma_elems_extend(d, e, h, n as int, Seq::<FV>::empty()); } }
+            } else if t == 126u8 {
+                if let Some(n) = spec_parse_usize(l) { lemma_elems_extend(d, e, h, n as int, Seq::<FV>::empty()); }
+            } else {
+                if let Some(n) = spec_parse_usize(l) { lemma_elems_extend(d, e, h, 2 * (n as int), Seq::<FV>::empty()); }
+            }
+        }
+    } else if t == 95u8 {
+        if d.len() >= 3 { assert(x[1] == d[1] && x[2] == d[2]); }
+    } else if t == 35u8 {
+        if d.len() >= 4 { assert(x[1] == d[1] && x[2] == d[2] && x[3] == d[3]); }
+    }
+}
+
+pub proof fn lemma_elems_extend(d: Seq<u8>, e: Seq<u8>, pos: int, k: int, acc: Seq<FV>)
+    requires 0 < pos <= d.len(),
+    ensures
+        spec_elems(d, pos, k, acc) matches ER::Done(fs, end) ==> spec_elems(d + e, pos, k, acc) == spec_elems(d, pos, k, acc) && pos <= end <= d.len(),
+        spec_elems(d, pos, k, acc) is Bad ==> spec_elems(d + e, pos, k, acc) is Bad,
+    decreases d.len() - pos, 2int, k
+{
+    if k <= 0 { return; }
+    let x = d + e;
+    let sub = d.subrange(pos, d.len() as int);
+    assert(x.subrange(pos, x.len() as int) =~= sub + e);
+    lemma_frame_extend(sub, e);
+    match spec_frame(sub) {
+        PR::Done(f, n) => {
+            if n > 0 && pos + n <= d.len() {
+                if pos + n < d.len() || k - 1 <= 0 {
+                    if pos + n <= d.len() && k - 1 > 0 { lemma_elems_extend(d, e, pos + n, k - 1, acc.push(f)); }
+                } else {
+                    // pos + n == d.len(): the remaining k-1 > 0 frames start at the end of d
+                    lemma_elems_at_end(d, e, k - 1, acc.push(f));
+                }
+            }
+        },
+        _ => {},
+    }
+}
+
+/// at the very end of d nothing can be complete: k > 0 more frames are "need more data", never Done or Bad
+pub proof fn lemma_elems_at_end(d: Seq<u8>, e: Seq<u8>, k: int, acc: Seq<FV>)
+    requires k > 0,
+    ensures spec_elems(d, d.len() as int, k, acc) is Incomplete,
+{
+    let sub = d.subrange(d.len() as int, d.len() as int);
+    assert(sub.len() == 0);
+    assert(spec_frame(sub) is Incomplete);
+}
+}
